@@ -1261,7 +1261,7 @@ def rule_lookup_before_work(chk, ev, rid):
     rets = [r for r in cfg.returns() if r in reach]
     for r in rets:
         v = cfg.nodes[r].ast.value
-        chk.ob(rid, C, v is not None and U(v) == var, f"the hit branch returns the looked-up state (`{U(v)}`)",
+        chk.ob(rid, C, v is not None and U(v) in (var, f"self.index_state({var})"), f"the hit branch returns the looked-up state (`{U(v)}`)",
                cfg.nodes[r].ast, ev.mod, key="hit-value")
 
 
